@@ -2,7 +2,7 @@
 import numpy as np
 from hypothesis import strategies as st
 
-from vlib import gen, ops
+from vlib import gen, ops, streams, twin
 from vlib.runner import Result, SubCheck, Violation
 
 PROPERTY = "C11"
@@ -27,7 +27,10 @@ NT_FLOOR = 0.2
 @st.composite
 def plan_st(draw, tier):
     kind, arms = draw(gen.arms_st(("int", "str"), 1, 4))
-    lp = draw(gen.lp_st(["EpsilonGreedy", "UCB1", "LinUCB"], arms, deterministic=True))
+    if draw(st.integers(0, 2)):
+        lp = draw(gen.lp_st(["EpsilonGreedy", "UCB1", "LinUCB"], arms, deterministic=True))
+    else:   # randomised policies, reproduced through the per-row seed (LinTS excluded: finding D8 of C05)
+        lp = draw(gen.lp_st(["EpsilonGreedy", "Softmax", "Popularity", "ThompsonSampling", "Random", "LinGreedy"], arms))
     nj = draw(st.sampled_from([1, 1, 1, 2, 3]))
     cfg = {"arms": arms, "lp": lp,
            "np": ["LSHNearest", {"n_dimensions": draw(st.integers(1, 6)), "n_tables": draw(st.integers(1, 4))}],
@@ -75,9 +78,9 @@ def signature(x, plane):
     return tuple(bool(b) for b in (proj > 0)), amb
 
 
-def fresh_expectations(cfg, dec, rew, cx, q):
+def fresh_expectations(cfg, dec, rew, cx, q, seed):
     from mabwiser.mab import MAB
-    m = MAB(list(cfg["arms"]), ops.make_lp(cfg["lp"]), None, cfg["seed"])
+    m = MAB(list(cfg["arms"]), ops.make_lp(cfg["lp"]), None, seed)
     if cfg["lp"][0] in ops.LINEAR:
         m.fit(dec, rew, cx)
         return ops.canon_expectations(m.predict_expectations([q]))
@@ -112,6 +115,7 @@ def evaluate(plan, ctx):
     arms = list(cfg["arms"])
     ev = ["lp=" + cfg["lp"][0], "n_jobs=%d" % cfg["n_jobs"], "tables=%d" % cfg["np"][1]["n_tables"]]
     linear = cfg["lp"][0] in ops.LINEAR
+    deterministic = twin.is_deterministic(cfg)
     tol = 1e-9 if linear else 0.0
     nt = False
     skipped = False
@@ -145,6 +149,7 @@ def evaluate(plan, ctx):
             skipped = True
             ev.append("oracle_self_miss")
             continue
+        row_seed = int(streams.clone_rng(mab._rng).randint(np.iinfo(np.int32).max, size=1)[0])
         out = ops.apply_op(mab, ["predict_expectations", [q]])
         if ops.is_exc(out):
             raise Violation("unexpected_exception", "predict_expectations(%r) raised %s" % (q, ops.short(out)),
@@ -158,7 +163,8 @@ def evaluate(plan, ctx):
                 raise Violation("empty_not_nan", "%s query %r collides with no stored row but got %s"
                                 % (kind_q, q, ops.short(got)))
             continue
-        want = fresh_expectations(cfg, [dec[i] for i in sel], [rew[i] for i in sel], [cx[i] for i in sel], q)
+        want = fresh_expectations(cfg, [dec[i] for i in sel], [rew[i] for i in sel], [cx[i] for i in sel], q,
+                                  row_seed)
         if not ops.same(got, want, rtol=tol, atol=tol):
             raise Violation("collision_set_value",
                             "%s query %r (row %d): library %s, oracle collision set %r of %d stored rows -> %s"
@@ -170,7 +176,7 @@ def evaluate(plan, ctx):
             nt = True
             ev.append("collides_only_with_partial_fit_rows")
         # metamorphic: scaling the query by a power of two never changes the result
-        if not linear:
+        if not linear and deterministic:
             o2 = ops.apply_op(mab, ["predict_expectations", [[4.0 * v for v in q]]])
             if not ops.outputs_equal(out, o2):
                 raise Violation("scale_invariance", "query %r: %s, 4*query: %s" % (q, ops.short(out), ops.short(o2)))
